@@ -212,7 +212,6 @@ def evalOk (f : Fn) (sel : Nat → Bool) (cols : List String) : Nat → List Cel
 
 /-- what a call amounts to once it did not raise -/
 inductive Outcome
-  | noop
   | pyattr (name : String) (v : Value)     -- only a plain Python attribute of the stacker object is set
   | act (a : Action)                       -- a pointwise assignment on `_stacked` followed by `_update`
   | grow (col : String) (cs : List Cell)   -- pandas quirk: a non-empty array assigned to a column of a frame with
@@ -225,7 +224,7 @@ def pyArith (f : Fn) : Value → Except Err Value
 /-- what a setter call does, given the stacker it is called on and the property names of its class:
 an exception (raised before anything is modified), or an `Outcome` -/
 def resolve (props : List String) (s : Stacker) : Op → Except Err Outcome
-  | .stack _ => .ok .noop
+  | .stack _ => .error .nostacker        -- (`step` handles `stack` itself)
   | .set _ col (.scalar c) => .ok (.act ⟨allSel, [col], fun _ _ _ => c⟩)
   | .set _ col (.array cs) =>
       if s.srows.isEmpty && !cs.isEmpty then .ok (.grow col cs)
@@ -309,7 +308,6 @@ def step (w : MapW) (op : Op) : MapW × Option Err :=
         | some s =>
           match resolve (propsOf w.mcls) s op with
           | .error e => (w, some e)
-          | .ok .noop => (w, none)
           | .ok (.pyattr name v) =>
               ({ w with stackers := w.stackers.set sid { s with pyattrs := (name, v) :: s.pyattrs } }, none)
           | .ok (.act a) => (applyAction w sid s a, none)
